@@ -81,6 +81,7 @@ MAP = [
  ("swap_char on a layer with a locked alpha channel erases", "C08", "update_layer_properties(0, alpha + alpha-locked); swap_char((3,3),(1,8)) where (1,8) is an invisible cell; undo - the cell at (3,3) is gone (found by the thorough tier at seed 2)"),
  ("IGS polymarker tables are walked one value per point", "C20", "G#T1,5,: G#P3,: (marker type diagonal cross, then a polymarker): index out of bounds in draw_poly_maker"),
  ("IGS line type 7 (user defined) indexes past the line style table", "C20", "G#T2,7,: G#L0,,,: (line type user defined, then a line): LINE_STYLE[6] out of bounds"),
+ ("ADF and IDF writers check the size of font 0 but embed the font", "C17", "document whose cells all use font page 3 (an 8x6 font) while slot 0 holds the stock 8x16 font: to_bytes(\"adf\" / \"idf\") succeeds and writes a 1536-byte font block, the loader answers 'File too short'"),
  ("RIP button drawing visits every pixel of a button far larger", "C20", "!|R|1BZD00XMFZRLZ5|1U: about ten million put_pixel calls for one button"),
 ]
 
